@@ -297,7 +297,7 @@ impl Ctx {
         }
 
         // Replay files for fresh violations.
-        let replay_dir = root.join("replays");
+        let replay_dir = std::env::var("VERIF_REPLAY_DIR").map(PathBuf::from).unwrap_or_else(|_| root.join("replays"));
         let _ = std::fs::create_dir_all(&replay_dir);
         let mut violation_lines = Vec::new();
         for (i, v) in fresh.iter().enumerate() {
@@ -368,7 +368,7 @@ impl Ctx {
             "wall_s": (wall * 1000.0).round() / 1000.0,
             "violations": fresh_count,
         });
-        let ev_dir = root.join("evidence");
+        let ev_dir = std::env::var("VERIF_EVIDENCE_DIR").map(PathBuf::from).unwrap_or_else(|_| root.join("evidence"));
         let _ = std::fs::create_dir_all(&ev_dir);
         if self.replay.is_none() {
             let ev_path = ev_dir.join(format!("{}.json", self.prop));
@@ -446,6 +446,11 @@ where
 {
     use std::sync::atomic::{AtomicU64, Ordering};
     let n = threads(ctx.tier);
+    // lanes that slow execution down by one to four orders of magnitude shrink the workload
+    let total = match std::env::var("VERIF_CASES_DIV").ok().and_then(|v| v.parse::<u64>().ok()) {
+        Some(d) if d > 1 => (total / d).max(1),
+        _ => total,
+    };
     let next = AtomicU64::new(0);
     let cap = time_cap_s(ctx.tier);
     let start = ctx.start;
